@@ -212,7 +212,51 @@ def run(ctx, rep):
                 f"cycle of {len(c)} function(s) ({', '.join(n.split('::')[-1] for n in names[:6])}{'…' if len(names) > 6 else ''}) recurses on input nesting with no depth or budget test: a deeply nested input overflows the stack (abort, no diagnostic)"),
                b0.file if b0 else None, b0.line if b0 else 0)
     rep.floor("recursion-budget", "cycles in input-nesting modules", n_cycles, 5)
-    rep.assume("index/slice panics and arithmetic overflow are not decided; dependencies (object, winnow, glob) are trusted not to panic on malformed input")
+    # ---- (D) arithmetic panics on input values -------------------------------------------------------------------
+    rep.rule("arith-panic", "in the linker-script expression evaluator and number parser no arithmetic on input values can panic: no raw signed `/`/`%` "
+             "(i64::MIN / -1 panics in every profile), every division or remainder (operator or wrapping_/checked_ call) is dominated by the "
+             "divisor != 0 edge, and every overflow-checked +,-,*,<<,>> has a listed reason")
+    import decide
+    ARITH_OK = {
+        ("libwild::expression_eval::evaluate_expression", "overflow:Sub"): ("guard-nonzero", "`align - 1` after the `align == 0` bail"),
+        ("libwild::expression_eval::line_number", "overflow:Add"): ("reason", "1 + number of newlines in a slice: bounded by the slice length"),
+        ("libwild::linker_script::parse_number_with_suffix", "overflow:Mul"): ("const", "1024 * 1024: both operands are constants"),
+    }
+    n_arith = 0
+    for b in F.all_bodies:
+        sk = stable(b.key)
+        if not (sk.startswith("libwild::expression_eval::") or sk.startswith("libwild::linker_script::parse_number")):
+            continue
+        cfg, flow = P.cfg(b), P.flow(b)
+        for bi, blk in enumerate(b.blocks):
+            if blk.get("cleanup") or bi not in cfg.reach:
+                continue
+            t = blk["t"]
+            kind = None
+            if t["k"] == "assert":
+                d = t.get("desc") or ""
+                if d in ("divzero", "remzero") or d.startswith("overflow"):
+                    kind = d
+            elif t["k"] == "call":
+                ck = callee_key(t["f"]) or ""
+                if re.search(r"::(wrapping_div|wrapping_rem|checked_div|checked_rem|div_euclid|rem_euclid|wrapping_div_euclid|wrapping_rem_euclid|overflowing_div|overflowing_rem)$", ck) and "::num::" in ck or re.search(r"^(core|std)::num::.*::(wrapping_div|wrapping_rem|div_euclid|rem_euclid)$", ck):
+                    kind = "call:" + ck.split("::")[-1]
+            if kind is None:
+                continue
+            n_arith += 1
+            at = decide.atoms_at(P, F, b, bi)
+            nonzero = any(a.startswith("bin:Eq(") and a.endswith(", 0)") and v is False for a, v in at) or any(a.startswith("bin:Ne(") and a.endswith(", 0)") and v is True for a, v in at)
+            inst = f"{sk}:{kind}"
+            if kind in ("overflow:Div", "overflow:Rem"):
+                rep.ob("arith-panic", inst, False, "raw signed division/remainder on an input value: i64::MIN / -1 panics (`attempt to divide with overflow`) in every build profile; use wrapping_div/wrapping_rem", b.file, t["l"])
+            elif kind in ("divzero", "remzero") or kind.startswith("call:"):
+                rep.ob("arith-panic", inst, nonzero, "division is dominated by the divisor != 0 edge" if nonzero else "division by an input value with no dominating divisor != 0 test: a zero divisor panics", b.file, t["l"])
+            else:
+                row = ARITH_OK.get((sk, kind))
+                ok = row is not None and (row[0] != "guard-nonzero" or nonzero)
+                rep.ob("arith-panic", inst, ok, (f"allowed: {row[1]}" if ok else f"overflow-checked `{kind.split(':')[1]}` on an input value panics in builds with overflow checks (the dev profile the test suite uses); use the wrapping_ form"), b.file, t["l"])
+    rep.floor("arith-panic", "arithmetic operations examined in the evaluator", n_arith, 4)
+    rep.assume("index/slice panics and arithmetic overflow outside the expression evaluator are not decided; dependencies (object, winnow, glob) are trusted not to panic on malformed input")
 
 
 def _budget_guard(P, body, cset):
